@@ -514,3 +514,14 @@ Example C01_fragment_instances_well_scoped :
   C01SimDefs2.in_f2 f1_example = true /\ C01SimDefs3.in_f3 f2_example = true /\
   C01SimDefs.in_f1 f2_example = false /\ C01SimDefs2.in_f2 f3_example = false.
 Proof. vm_compute. repeat split; reflexivity. Qed.
+
+(* the three fragments are nested, and every program of them is in the class property C01 quantifies
+   over: the theorems above are instances of compile_correct, not statements about other programs *)
+From Cao Require C01SimScope.
+Theorem C01_fragments_well_scoped :
+  forall M : module,
+    (C01SimDefs.in_f1 M = true -> C01SimDefs2.in_f2 M = true) /\
+    (C01SimDefs2.in_f2 M = true -> C01SimDefs3.in_f3 M = true) /\
+    (C01SimDefs3.in_f3 M = true -> well_scoped M = true).
+Proof. exact C01SimScope.fragments_well_scoped. Qed.
+Print Assumptions C01_fragments_well_scoped.
